@@ -841,10 +841,11 @@ func genUI(r *rand.Rand, n int, emit func(Op)) {
 		   is there): everything but j and k, which look at what has been loaded so far */
 		if r.Intn(3) == 0 {
 			for n := 1 + r.Intn(2); n > 0; n-- {
-				/* the starter begins in normal mode; every token in between leaves no command line or
+				/* the starter begins in normal mode and is a single key (a second j would look at what
+				   the first one is still loading); every token in between leaves no command line or
 				   number open (an open command line would turn later keys into an :open), only the
 				   last one may */
-				tok := "HELDS\x1f\x1b" + pick(r, []string{" ", " ", "j", "k", "c", "a", "r", "jj", "kk"})
+				tok := "HELDS\x1f\x1b" + pick(r, []string{" ", " ", "j", "k", "c", "a", "r", "j", "k"})
 				for k := 1 + r.Intn(6); k > 0; k-- {
 					tok += "\x1f" + pick(r, []string{"g", "h", "h", "l", " ", " ", "c", "r", "a", "o", "p", "b", "\x1b", "\x7f", ":x\x1b", ":open x\x1b", "1\x1b", "12\x7f\x7f", "0.", "99.", ":\r", ":bogus x\r", ":feed unknown\r",
 						"\x00", "é", "Z", fmt.Sprintf("RESIZE %d %d", 1+r.Intn(120), 2+r.Intn(58)), fmt.Sprintf("RESIZE %d %d", 1+r.Intn(8), 2+r.Intn(3))})
